@@ -66,15 +66,25 @@ def damages(text, rng, quick, all_offsets):
     return out
 
 
+# constructor options under which a damaged file is opened as well (filters that keep every particle and every event, so the
+# answer the property prescribes is the same as without them; the count checks of the loaders differ between these paths)
+OPTIONS = {"mult_filter": {"filters": {"multiplicity_cut": (0, None)}},
+           "off_switch": {"filters": {"charged_particles": False}}}
+
+
+def ctor_options(case):
+    return dict(OPTIONS[case["opts"]]) if case.get("opts") else {}
+
+
 def observe(case, ctx, idx):
     if case["kind"] == "jet":
         path = os.path.join(ctx.work, f"d{idx}.dat")
         open(path, "w").write(case["text"])
-        obs = J.observe(path, particletype=case["doc"]["ptype"])
+        obs = J.observe(path, particletype=case["doc"]["ptype"], **ctor_options(case))
     else:
         path = os.path.join(ctx.work, f"d{idx}.oscar")
         open(path, "w").write(case["text"])
-        obs = G.observe_oscar(path)
+        obs = G.observe_oscar(path, **ctor_options(case))
     os.remove(path)
     return obs
 
@@ -186,7 +196,8 @@ def oracle(case, obs=None, full=None):
 
 
 def correspondence(ctx, model_ok=True):
-    nfiles = 4 if ctx.quick else 40
+    nfiles = 6 if ctx.quick else 42
+    opt_cases = []
     cases = []
     fulls = {}
     for i in range(nfiles + 2):
@@ -205,24 +216,32 @@ def correspondence(ctx, model_ok=True):
                 base = {"kind": "jet", "doc": d}
                 text = J.render(d)
         elif i % 2 == 1:
-            d = J.gen_doc(ctx.rng, max_events=3, max_mult=2)
+            d = J.gen_doc(ctx.rng, ptype=["hadron", "parton"][(i // 2) % 2], max_events=3, max_mult=2)
             base = {"kind": "jet", "doc": d}
             text = J.render(d)
         else:
-            d = G.gen_doc(ctx.rng, fmt=ctx.rng.choice(["Oscar2013", "Oscar2013", "ASCII"]), max_events=3, max_mult=2)
+            # every format family in every run (the loaders count the lines of an event differently per family)
+            d = G.gen_doc(ctx.rng, fmt=["Oscar2013", "ASCII", "Oscar2013Extended"][(i // 2) % 3], max_events=3, max_mult=2)
             base = {"kind": "oscar", "doc": d}
             text = G.render(d)
-        for name, dt in damages(text, ctx.rng, ctx.quick, True):
+        for k, (name, dt) in enumerate(damages(text, ctx.rng, ctx.quick, True)):
             if "\n" not in dt:
                 continue                        # no complete line at all: the backward seek fails (trivial)
             c = dict(base); c["dmg"] = name; c["text"] = dt; c["file"] = i
             cases.append(c)
+            # the same damaged file opened with constructor options (oracle only; the model runs are the default-option ones)
+            if name.startswith(("del", "dup")) or k % 5 == 0:
+                for on in OPTIONS:
+                    oc = dict(c); oc["opts"] = on
+                    opt_cases.append(oc)
     obs = [observe(c, ctx, i) for i, c in enumerate(cases)]
     loaded = sum(1 for o in obs if "err" not in o)
     out = {"evaluations": len(cases), "distinct_nontrivial": len({c["text"] for c in cases}),
            "rule": "for each generated file: EVERY byte offset as a truncation point (offsets before the first newline excluded) and every "
                    "single deletion / duplication of a particle line; model (token level, with/without final newline) and real constructor must "
-                   "agree on error-vs-loaded and on everything loaded; the property oracle checks error-or-prefix-of-complete-events on the real code",
+                   "agree on error-vs-loaded and on everything loaded; the property oracle checks error-or-prefix-of-complete-events on the real code; "
+                   "every format family (Oscar2013, Extended, ASCII, JETSCAPE hadron and parton) in every run; every deletion/duplication and every "
+                   "fifth cut also opened with constructor options that keep everything (filters={multiplicity_cut:(0,None)}, a False switch) - oracle only",
            "samples": [{"dmg": c["dmg"], "tail": c["text"][-60:]} for c in cases[40:43]],
            "exhaustive": True, "failures": [], "broken": [],
            "distribution": {"loaded_despite_damage": loaded, "kinds": dict(Counter(c["dmg"][:3] for c in cases)),
@@ -255,6 +274,20 @@ def correspondence(ctx, model_ok=True):
         msg = oracle(cc, o, fulls[c["file"]])
         if msg:
             out["failures"].append(Failure(cc, "property oracle", on_impl=msg))
+    # the constructor-option stream: property oracle on the real code only
+    nopt = 0
+    for c in opt_cases:
+        cc = {k: c[k] for k in ("kind", "doc", "dmg", "text", "opts")}
+        o = observe(cc, ctx, f"opt{nopt}")
+        nopt += 1
+        msg = oracle(cc, o, fulls[c["file"]])
+        if msg:
+            out["failures"].append(Failure(cc, "property oracle (file opened with constructor options)",
+                                           on_impl=f"opened with {OPTIONS[c['opts']]}: {msg}"))
+            if sum(1 for f in out["failures"] if f.case.get("opts")) >= 5:
+                break
+    out["distribution"]["opened_with_constructor_options"] = nopt
+    out["evaluations"] += nopt
     return out
 
 
